@@ -38,8 +38,9 @@ What I need from you:
    still print `ok` (packages that fail to build there fail on the unchanged tree too; ignore them).
 3. A demonstration: an in-package Go test file {md}/demo_test.go (function name starting with TestDemo) plus {md}/run_demo.sh
    (`run_demo.sh [worktree]`, default worktree {wt}; builds the overlay json itself as in the README; exits non-zero when the
-   test fails). The demo must FAIL with your change applied and PASS on the unchanged tree (verify both: `git -C {wt} stash`
-   / `stash pop`, or `git -C {wt} diff > patch; git checkout -- .; ...; git apply patch`). The test should exercise the real
+   test fails). The demo must FAIL with your change applied and PASS on the unchanged tree (verify both with
+   `git -C {wt} diff > {md}/patch.diff; git -C {wt} checkout -- .; <run>; git -C {wt} apply {md}/patch.diff` — NEVER use `git stash`: the
+   stash is shared by all worktrees of this repository and other agents are working in sibling worktrees). The test should exercise the real
    functions (not a re-implementation) and assert the property's observable behaviour.
 4. Write {md}/patch.diff (`git -C {wt} diff > {md}/patch.diff`, paths relative to the repo root so that `git apply` works from
    the root) and {md}/notes.md: what you changed, which clause of the property it breaks, exactly what is needed for it to
